@@ -25,7 +25,23 @@ def events(log):
 
 def scenario(chk, i):
     rng = chk.rng("scn", i)
-    kind = i % 8
+    kind = i % 9
+    if kind == 8:
+        # REJECT scanner, tiny first buffer, then a switch to a buffer of the default size: the
+        # state buffer is regrown by yy_switch_to_buffer() and long tokens follow
+        job = tokens.c11_job(chk, rng, 6 * i + 4)          # (index = 4 mod 6: the REJECT variant)
+        case = job["case"]
+        case["opts"]["ledger"] = True
+        scripts.ensure_returns(case, rng, 100)
+        case["driver"] = {"init": [("open_buf", 0)],
+                          "after": [[("x", ("gcreate", 1, 1, 0)), ("x", ("gswitch", 1))]],
+                          "fini": [("gdelete_all",)]}
+        case["wrap"] = [("pop",)] * 10
+        cfg = dict(job["configs"][0])
+        long_ = bytes(rng.choice(b"xy") for _ in range(rng.rint(60, 200)))
+        inp = {"sources": [b"ab ab ab\n", b"ab " + long_ + b" ab " + long_ + b"\n", b"", b"", b"", b""],
+               "strings": job["inputs"][0].get("strings", []), "sched": [0], "bufsize": rng.choice([4, 8, 16])}
+        return "reject_regrow", case, cfg, inp
     if kind == 7:
         # buffer growth: tiny initial buffer, one long token (never a REJECT scanner: i*6)
         job = tokens.c03_job(chk, rng, i * 6)
@@ -53,9 +69,9 @@ def scenario(chk, i):
         name, mk = [("delivery", tokens.c03_job), ("start_stack", tokens.c05_job),
                     ("reject", tokens.c07_job), ("stream_edits", tokens.c08_job),
                     ("buffers", tokens.c11_job), ("eof_chain", tokens.c10_job)][kind]
-        if name == "start_stack" and (i // 8) % 2 == 0:
+        if name == "start_stack" and (i // 9) % 2 == 0:
             # the deep variant: 30-130 pushes, so the start-condition stack is reallocated
-            job = mk(chk, rng, 7 * (i // 8) + 3)
+            job = mk(chk, rng, 7 * (i // 9) + 3)
             name = "start_stack_deep"
         else:
             job = mk(chk, rng, i)
@@ -63,7 +79,12 @@ def scenario(chk, i):
     case["opts"]["ledger"] = True
     case.setdefault("driver", {})
     case["driver"]["fini"] = list(case["driver"].get("fini", [])) + [("gdelete_all",)]
-    cfg = dict([c for c in job["configs"] if c["flavour"] != "cxx" and not c.get("deliv")][0])
+    cands = [c for c in job["configs"] if c["flavour"] != "cxx" and not c.get("deliv")]
+    if cands:
+        cfg = dict(cands[0])
+    else:
+        cfg = dict(job["configs"][0])       # (the C++ class takes no part in the ledger runs)
+        cfg["flavour"] = "r"
     cfg.pop("input_filter", None)
     cfg.pop("input_flags", None)
     inp = job["inputs"][i % len(job["inputs"])]
@@ -373,7 +394,7 @@ def run(pid, tier):
     chk = common.Check(pid, tier, level="fault_enumeration")
     chk.rule = RULE
     known.replay_known(chk)
-    na, nr = (24, 12) if tier == "quick" else (480, 200)
+    na, nr = (27, 12) if tier == "quick" else (540, 200)
     ks = []
     for o in util.pmap(alloc_worker, [(chk, i) for i in range(na)]):
         if o.get("skipped"):
@@ -410,7 +431,7 @@ def run(pid, tier):
     for k in ("fatal_nomem", "eintr_identical", "eio_reported", "path:stdio_fread", "path:stdio_getc",
               "path:read2", "path:c99_fread", "scenario:tables_load", "init_error_returns_ok",
               "scenario:buffers", "scenario:reject", "scenario:start_stack", "scenario:start_stack_deep",
-              "stack_regrown_in_undisturbed_run", "fatal_buffer_grow", "scenario:buffer_growth"):
+              "stack_regrown_in_undisturbed_run", "fatal_buffer_grow", "scenario:buffer_growth", "scenario:reject_regrow"):
         chk.require(k)
     return chk
 
